@@ -78,6 +78,7 @@ def unit(rules, hashes, n):
     t = rules.sub("C16.map_subscript1", r"\brow_values\[(\w+)\]", r"row_values_val[row_values_ins(\1)]", t, expect=2)
     t = rules.sub("C16.push_back", r"\b([LU]_(?:values|col_idx))\.push_back\(([^;]+)\);", r"\1[VEC_PUSH(\1)] = \2;", t, expect=4)
     t = rules.sub("C16.T_literal", r"\bT\((\d+)\)", r"RQ(\1,1)", t)
+    t = rules.sub("C16.T_type", r"\bT\b(?!\s*\()", "real_t", t)
     t = rules.sub("C16.vec_subscript", r"\b([LU]_row_ptr)\[([^\]]+)\]", r"VAT(\1, \2)", t, expect=2)
     t = common_body_rewrites(t, rules, "R")
     if re.search(r"std::|auto\b|->|\.find\(|\.end\(", t):
@@ -162,6 +163,9 @@ def job_for(name, n, rows, order, nrhs=2):
     h.append("  factorized_ = 0; L_values_size = U_values_size = L_col_idx_size = U_col_idx_size = L_row_ptr_size = U_row_ptr_size = 0;")
     h.append("  factorizeWithHashing();")
     h.append("  __CPROVER_assert(factorized_, \"OBL:factorized_set\");")
+    # every pattern stores its diagonal, so row i of U must contain the pivot (i, i) whatever the values are (structural)
+    for i in range(n):
+        h.append("  __CPROVER_assert(U_map_has[%d][%d], \"OBL:row_of_U_contains_its_pivot[row=%d]\");" % (i, i, i))
     # the precondition of the property: an LU factorisation without pivoting exists <=> no pivot vanishes
     for i in range(n):
         h.append("  __CPROVER_assume(U_map_has[%d][%d] && U_map_val[%d][%d] != 0);" % (i, i, i, i))
@@ -178,7 +182,7 @@ def job_for(name, n, rows, order, nrhs=2):
     j = Job("C16.lu[%s,n=%d,maporder=%s]" % (name, n, "".join(map(str, order))), "\n".join(c + h), "R", unwind=n * n + 3, timeout=900,
             bounded="n=%d, sparsity pattern and storage order `%s` fixed; hash-map iteration order fixed %s; all stored values and right-hand sides symbolic" % (n, name, order),
             functions=["SparseLUSolver::factorizeWithHashing", "SparseLUSolver::solveInPlace(double*)"],
-            covers={"COVER:reached_end"}, split=r"^OBL:(A_x|solve_)|^COVER:", split_timeout=300,
+            covers={"COVER:reached_end"}, split=r"^OBL:(A_x|solve_|row_of_U)|^COVER:", split_timeout=300,
             extra=["--no-div-by-zero-check", "--max-field-sensitivity-array-size", "4096"])
     j.rules, j.hashes, j.pattern, j.n = rules, hashes, rows, n
     return j
